@@ -17,6 +17,7 @@ import z3
 from harness import aggs, C03, C05
 from symex import loader, snp
 from symex import scalars as S
+from symex.scalars import SReal
 from symex.engine import Violation, Abort, Inconclusive, HarnessError
 
 ID = "C16"
@@ -56,6 +57,22 @@ def configs(tier, seed):
                     continue
                 out.append(C03._base(2, dims, 2, [i % 2] * len(dims), "sum", weights=["none", "array"][i % 2], ignore=bool((i // 2) % 2),
                                      fmt="nan", side=side, aggl=aggl, fact="nan"))
+    # several fact columns: the array cube then works per bin with row masks instead of bincount
+    for side in ("ccube", "xcube"):
+        for aggl in (["sum"], ["mean"], ["valid_count"]) if tier == "thorough" or side == "xcube" else (["mean"],):
+            i += 1
+            out.append(C03._base(2, [[3]], 2, [i % 2], "sum", weights=["none", "array"][i % 2], ignore=bool((i // 2) % 2),
+                                 fmt="nan", side=side, aggl=aggl, fact="nan", K=2))
+    # the array-cube-only statistics of C18, pooled: categories and validity bits are structure (forked per path, as in
+    # C18); the pooled result must be conflict-free and equal the serial result of fresh objects
+    for aggl, K, wf in ((["stddev"], 1, "array"), (["quantile"], 1, "none"), (["max", "min"], 1, "none"),
+                        (["covariance"], 2, "none"), (["corrcoef", "stddev"], 2, "none"), (["quantile"], 1, "array")):
+        i += 1
+        if tier == "quick" and aggl == ["quantile"] and wf == "array":
+            continue
+        extra = {"wvals": ["1", "2"]} if wf != "none" else {}
+        out.append(C03._base(2, [[3]], 2, [0], "sum", weights=wf, ignore=bool(i % 2), fmt="nan", side="xcube", aggl=aggl,
+                             fact="nan", K=K, struct=True, **extra))
     return out
 
 
@@ -174,6 +191,36 @@ def make_pool(rec, shared):
     return RecPool
 
 
+def structure_inputs(eng, data):
+    """Library inputs with categories and validity bits decided per path (fact values and weights stay symbolic)."""
+    N, K = data.N, data.K
+    fl = rnp.dtype(float)
+    dense = []
+    for d, extra in enumerate(data.extras):
+        o = rnp.empty((N,) + tuple(extra), dtype=object)
+        for sub, cs in sorted(data.cats[d].items()):
+            for r, c_ in enumerate(cs):
+                o[(r,) + tuple(sub)] = eng.concretize(c_)
+        dense.append(snp.ndarray(o, rnp.int64))
+    fvalid = [[eng.branch(data.vvalid[r][k]) for k in range(K)] for r in range(N)]
+    shape = (N, K) if K > 1 else (N,)
+    fo = rnp.empty(N * K, dtype=object)
+    for r in range(N):
+        for k in range(K):
+            fo[r * K + k] = SReal(data.vt[r][k], False, False) if fvalid[r][k] else float("nan")
+    fact = snp.ndarray(fo.reshape(shape), fl)
+    weights = None
+    if data.wform == "array":
+        wvalid = [eng.branch(b) for b in data.wvalid]
+        wo = rnp.empty(N, dtype=object)
+        for r in range(N):
+            wo[r] = SReal(data.wt[r], False, False) if wvalid[r] else float("nan")
+        weights = snp.ndarray(wo, fl)
+    elif data.wform != "none":
+        raise HarnessError("C16 structure inputs: weight form %r" % data.wform)
+    return fact, weights, dense
+
+
 def explore(cfg, eng, ctx):
     C = aggs.catii("summary")
     ignore, side, aggl = cfg["ignore"], cfg["side"], cfg["aggl"]
@@ -205,17 +252,34 @@ def explore(cfg, eng, ctx):
                      conflict=info["conflict"])
             return c
         ctx.case_builder = builder
-        fact, weights = data.fact(), data.weights()
+        struct = bool(cfg.get("struct"))
+        if struct:
+            fact, weights, dense = structure_inputs(eng, data)
+        else:
+            fact, weights = data.fact(), data.weights()
+
+        def mkfs():
+            out = []
+            for agg in aggl:
+                cls = getattr(mod, prefix + agg)
+                if agg == "count":
+                    out.append(cls(weights, None, ignore, float("nan")))
+                elif agg in ("max", "min"):
+                    out.append(cls(fact, ignore, float("nan")))
+                elif agg == "quantile":
+                    out.append(cls(fact, 0.5, weights, ignore, float("nan")))
+                else:
+                    out.append(cls(fact, weights, ignore, float("nan")))
+            return out
         rec = Recorder()
         try:
             if side == "ccube":
                 cube = C.ccubes.ccube(data.index_dims(C, cfg["commons"]), interacting_shape=ishape)
+            elif struct:
+                cube = C.xcubes.xcube(dense, interacting_shape=ishape)
             else:
                 cube = C.xcubes.xcube(data.dense_dims(), interacting_shape=ishape)
-            fs = []
-            for agg in aggl:
-                cls = getattr(mod, prefix + agg)
-                fs.append(cls(weights, None, ignore, float("nan")) if agg == "count" else cls(fact, weights, ignore, float("nan")))
+            fs = mkfs()
             Pool = make_pool(rec, [cube] + fs)
             if side == "ccube":
                 C.ccubes.multiprocessing = types.SimpleNamespace(pool=types.SimpleNamespace(ThreadPool=Pool))
@@ -248,6 +312,21 @@ def explore(cfg, eng, ctx):
         if conflict is not None:
             info["conflict"] = conflict
             eng.assert_(False, "pooled tasks conflict on shared state: %r" % (conflict,))
+            return
+        if struct:
+            # conflict-free: tasks commute; the pooled branch must return what the serial branch returns (fresh objects)
+            try:
+                serial = C.xcubes.xcube(dense, interacting_shape=ishape).calculate(mkfs())
+            except (Violation, Abort, Inconclusive, HarnessError):
+                raise
+            except Exception as ex:
+                eng.assert_(False, "serial calculate raised %s: %s" % (type(ex).__name__, str(ex)[:100]))
+                return
+            from harness import C05
+            for agg, r, s_ in zip(aggl, res, serial):
+                eng.assert_(C05.same_outputs(r, s_, "nan"), "pooled %s differs from the serial result" % agg)
+            eng.vcs += len(list(itertools.combinations(tasks, 2)))
+            ctx.end_path()
             return
         # conflict-free: tasks commute; the (sequentially executed) pooled result must be the right one for all data
         for agg, r in zip(aggl, res):
